@@ -829,6 +829,29 @@ class DateTime(datetime.datetime, Date):
 
         return cast("Self", getattr(self, f"_end_of_{unit}")())
 
+    def _boundary(self, year: int, month: int, day: int, last: bool = False) -> Self:
+        """
+        Returns the first (or last) moment of the given day
+        in the timezone of the instance.
+
+        If 00:00:00 (or 23:59:59.999999) is skipped or repeated there,
+        the moment is chosen inside the day whatever the fold of the instance:
+        right after (before) the skipped time, or the first (second)
+        occurrence of the repeated time.
+        """
+        time = (23, 59, 59, 999999) if last else (0, 0, 0, 0)
+        fold = self.fold
+        tz = self.tz
+
+        if tz is not None:
+            naive = datetime.datetime(year, month, day, *time)
+            before = tz.utcoffset(naive)
+            after = tz.utcoffset(naive.replace(fold=1))
+            if before != after:
+                fold = int((after > before) != last)
+
+        return self.__class__.create(year, month, day, *time, tz=tz, fold=fold)
+
     def _start_of_second(self) -> Self:
         """
         Reset microseconds to 0.
@@ -869,39 +892,39 @@ class DateTime(datetime.datetime, Date):
         """
         Reset the time to 00:00:00.
         """
-        return self.at(0, 0, 0, 0)
+        return self._boundary(self.year, self.month, self.day)
 
     def _end_of_day(self) -> Self:
         """
         Reset the time to 23:59:59.999999.
         """
-        return self.at(23, 59, 59, 999999)
+        return self._boundary(self.year, self.month, self.day, last=True)
 
     def _start_of_month(self) -> Self:
         """
         Reset the date to the first day of the month and the time to 00:00:00.
         """
-        return self.set(self.year, self.month, 1, 0, 0, 0, 0)
+        return self._boundary(self.year, self.month, 1)
 
     def _end_of_month(self) -> Self:
         """
         Reset the date to the last day of the month
         and the time to 23:59:59.999999.
         """
-        return self.set(self.year, self.month, self.days_in_month, 23, 59, 59, 999999)
+        return self._boundary(self.year, self.month, self.days_in_month, last=True)
 
     def _start_of_year(self) -> Self:
         """
         Reset the date to the first day of the year and the time to 00:00:00.
         """
-        return self.set(self.year, 1, 1, 0, 0, 0, 0)
+        return self._boundary(self.year, 1, 1)
 
     def _end_of_year(self) -> Self:
         """
         Reset the date to the last day of the year
         and the time to 23:59:59.999999.
         """
-        return self.set(self.year, 12, 31, 23, 59, 59, 999999)
+        return self._boundary(self.year, 12, 31, last=True)
 
     def _start_of_decade(self) -> Self:
         """
@@ -909,7 +932,7 @@ class DateTime(datetime.datetime, Date):
         and the time to 00:00:00.
         """
         year = self.year - self.year % YEARS_PER_DECADE
-        return self.set(year, 1, 1, 0, 0, 0, 0)
+        return self._boundary(year, 1, 1)
 
     def _end_of_decade(self) -> Self:
         """
@@ -918,7 +941,7 @@ class DateTime(datetime.datetime, Date):
         """
         year = self.year - self.year % YEARS_PER_DECADE + YEARS_PER_DECADE - 1
 
-        return self.set(year, 12, 31, 23, 59, 59, 999999)
+        return self._boundary(year, 12, 31, last=True)
 
     def _start_of_century(self) -> Self:
         """
@@ -927,7 +950,7 @@ class DateTime(datetime.datetime, Date):
         """
         year = self.year - 1 - (self.year - 1) % YEARS_PER_CENTURY + 1
 
-        return self.set(year, 1, 1, 0, 0, 0, 0)
+        return self._boundary(year, 1, 1)
 
     def _end_of_century(self) -> Self:
         """
@@ -936,7 +959,7 @@ class DateTime(datetime.datetime, Date):
         """
         year = self.year - 1 - (self.year - 1) % YEARS_PER_CENTURY + YEARS_PER_CENTURY
 
-        return self.set(year, 12, 31, 23, 59, 59, 999999)
+        return self._boundary(year, 12, 31, last=True)
 
     def _start_of_week(self) -> Self:
         """
